@@ -126,6 +126,25 @@ def run(ctx, prog, res):
         r2.check(("RuleSequence", fld) in got, {"shortcut_reads": fld}, "C02.R2:is_constant:%s" % fld,
                  "OpeningHoursExpression::is_constant never reads RuleSequence.%s although schedule_at branches on it" % fld, lib.where_of(ic))
 
+    # the scan that skips trailing rules may only skip a rule after looking at everything that makes it differ from the
+    # last one: its days, its time span and its kind (the closure handed to the backward search reads all three)
+    scans = []
+    for fid in prog.with_closures(ic.id):
+        f = prog.fns[fid]
+        for _, t in f.calls():
+            nm = (t.get("callee") or {}).get("name") or ""
+            if nm in ("rposition", "rfind", "position", "take_while", "skip_while", "rev") and "RuleSequence" in str((t.get("callee") or {}).get("path_args")):
+                for a in t["args"]:
+                    c = flow.closure_of_operand(f, a)
+                    if c:
+                        scans.append((nm, prog.fns[c]))
+    for nm, clo in scans:
+        rd = {fl for (ad, fl) in lib.reads(prog, clo.id, RS) if ad == "RuleSequence"}
+        missing = [x for x in ("day_selector", "time_selector", "kind") if x not in rd]
+        r2.check(not missing, {"tail_scan": nm, "predicate_reads": sorted(rd)}, "C02.R2:is_constant:tail-scan",
+                 "the predicate of is_constant's scan over the trailing rules (`%s`) never reads %s: rules that differ in it are skipped as if they repeated the last rule - e.g. `24/7; Dec 25 off; Jan 1 open` is declared constant" % (nm, missing), lib.where_of(clo))
+    r2.check(bool(scans), {"tail_scans": len(scans)}, "C02.R2:is_constant:tail-scan:ANCHOR", "ANCHOR: is_constant no longer scans the trailing rules with a predicate", lib.where_of(ic))
+
     # R3 -------------------------------------------------------------------------------------
     r3 = res.rule("C02.R3", "the iterator only jumps to a hint that was asserted to be strictly after the current date, and falls back to the next day when the hint is unknown")
     cu = prog.require_fn("opening_hours::opening_hours::TimeDomainIterator::<L>::consume_until_next_kind")
